@@ -497,11 +497,13 @@ class Config(callbacks.Plugin):
                 netgroup = group.get(':' + network.network)
                 changroup = netgroup.get(channel)
                 checkCanSetValue(irc, msg, changroup)
+                netgroup() # re-read it first if the registry was reloaded
                 changroup._setValue(netgroup.value, inherited=True)
 
             # reset group.#channel
             changroup = group.get(channel)
             checkCanSetValue(irc, msg, changroup)
+            group() # re-read it first if the registry was reloaded
             changroup._setValue(group.value, inherited=True)
 
             irc.replySuccess()
@@ -521,6 +523,7 @@ class Config(callbacks.Plugin):
             # reset group.#channel
             changroup = group.get(':' + network.network)
             checkCanSetValue(irc, msg, changroup)
+            group() # re-read it first if the registry was reloaded
             changroup._setValue(group.value, inherited=True)
 
             irc.replySuccess()
